@@ -1110,6 +1110,50 @@ func c06AppendMarkers(srv *Server, m *c06Model, rng *kit.RNG, hid, step int) int
 
 func c06TempDir(tag string) string { return vfWorkDir("c06" + tag) }
 
+// c06RemoveLater deletes a data directory a few seconds after its logs were
+// closed: commitLog.checkpointHWLoop can run one more checkpoint after Close
+// (its select may pick a ticker tick that is ready at the same instant as the
+// closed channel) and panics if the directory is already gone.  Cleanup only;
+// no oracle depends on the delay.
+var (
+	c06GraveMu   sync.Mutex
+	c06Grave     []c06Dead
+	c06GraveOnce sync.Once
+)
+
+type c06Dead struct {
+	dir string
+	at  time.Time
+}
+
+func c06RemoveLater(dir string) {
+	c06GraveOnce.Do(func() {
+		go func() {
+			for {
+				time.Sleep(500 * time.Millisecond)
+				var due []string
+				c06GraveMu.Lock()
+				keep := c06Grave[:0]
+				for _, d := range c06Grave {
+					if time.Since(d.at) > 3*time.Second {
+						due = append(due, d.dir)
+					} else {
+						keep = append(keep, d)
+					}
+				}
+				c06Grave = keep
+				c06GraveMu.Unlock()
+				for _, d := range due {
+					os.RemoveAll(d)
+				}
+			}
+		}()
+	})
+	c06GraveMu.Lock()
+	c06Grave = append(c06Grave, c06Dead{dir, time.Now()})
+	c06GraveMu.Unlock()
+}
+
 // c06Restart emulates what happens on a restart with a snapshot taken after k
 // operations and a log holding operations k+1..n: NewRaft calls Restore, then
 // Server.Apply is called for every later entry with recovered=true (the whole
@@ -1226,7 +1270,14 @@ func c06RunHistory(rep *kit.Report, id int, seed uint64) {
 	dirA, dirB, dirC := c06TempDir("a"), c06TempDir("b"), c06TempDir("c")
 	A, B, C := c06NewServer(dirA), c06NewServer(dirB), c06NewServer(dirC)
 	var cleanup []func()
-	cleanup = append(cleanup, func() { c06Close(A); c06Close(B); c06Close(C); os.RemoveAll(dirA); os.RemoveAll(dirB); os.RemoveAll(dirC) })
+	cleanup = append(cleanup, func() {
+		c06Close(A)
+		c06Close(B)
+		c06Close(C)
+		c06RemoveLater(dirA)
+		c06RemoveLater(dirB)
+		c06RemoveLater(dirC)
+	})
 	defer func() {
 		for _, f := range cleanup {
 			f()
@@ -1359,7 +1410,7 @@ func c06RunHistory(rep *kit.Report, id int, seed uint64) {
 					if s != nil {
 						c06Close(s)
 					}
-					os.RemoveAll(dir)
+					c06RemoveLater(dir)
 				}()
 				rep.Count("splits_checked", 1)
 				if err != nil {
@@ -1538,7 +1589,7 @@ func c06RunConcurrent(rep *kit.Report, id int, seed uint64) {
 	concurrent := id%2 == 0
 	dirA := c06TempDir("ca")
 	A := c06NewServer(dirA)
-	defer func() { c06Close(A); os.RemoveAll(dirA) }()
+	defer func() { c06Close(A); c06RemoveLater(dirA) }()
 
 	type pend struct {
 		k      int
@@ -1653,7 +1704,7 @@ func c06RunConcurrent(rep *kit.Report, id int, seed uint64) {
 		if s != nil {
 			c06Close(s)
 		}
-		os.RemoveAll(dir)
+		c06RemoveLater(dir)
 		_ = pi
 	}
 	rep.Eval()
